@@ -632,6 +632,12 @@ pub(crate) mod v_socket_tcp {
         rx_step(false);
     }
 
+    // @harness props=C01,C04,C17,C02 cfg=KT2 tier=t to=3000 mem=12 unwind=8 opts=nomem covers=5 funcs=tcp::Socket::process;congestion::reno::Reno::on_ack;congestion::reno::Reno::on_dup_ack;congestion::reno::Reno::set_remote_window bounds=as_tcp_rx_step_with_the_Reno_congestion_controller_in_an_arbitrary_state_(MSS_48..65535,_cwnd/rwnd<=2^30)
+    #[kani::proof]
+    pub(crate) fn tcp_rx_step_reno() {
+        rx_step(true);
+    }
+
     // ------------------------------------------------------------------ sender step
     // C05 (i)-(v), C01-S, C04 (iii) for emitted ACK numbers, C17 edges of dispatch, C02-L1
     fn tx_step(with_reno: bool) {
@@ -786,6 +792,12 @@ pub(crate) mod v_socket_tcp {
     #[kani::proof]
     pub(crate) fn tcp_tx_step() {
         tx_step(false);
+    }
+
+    // @harness props=C05,C01,C02,C17 cfg=KT tier=t to=3000 mem=12 unwind=8 opts=nomem covers=5 funcs=tcp::Socket::dispatch;tcp::Socket::seq_to_transmit;congestion::reno::Reno::window;congestion::reno::Reno::on_rto;congestion::reno::Reno::on_loss bounds=as_tcp_tx_step_with_the_Reno_congestion_controller_in_an_arbitrary_state_(MSS_48..65535,_cwnd/rwnd<=2^30)
+    #[kani::proof]
+    pub(crate) fn tcp_tx_step_reno() {
+        tx_step(true);
     }
 
     // ------------------------------------------------------------------ application reads
